@@ -423,6 +423,24 @@ func scripted(seed int64, G, total int, R, T time.Duration, procs int) {
 		case o.TimedOut():
 			got = "timeout"
 		}
+		if got != want && want == "ok" && got == "timeout" {
+			// a Send that was owed a success timed out: was the process starved? (copies
+			// of the request far further apart than the resend interval)
+			prev, worst := time.Duration(-1), time.Duration(0)
+			for _, fi := range o.Frames {
+				if prev >= 0 && log[fi].T-prev > worst {
+					worst = log[fi].T - prev
+				}
+				prev = log[fi].T
+			}
+			if o.RetT-prev > worst {
+				worst = o.RetT - prev
+			}
+			if worst > 4*R+10*time.Millisecond {
+				r.Inconclusive(fmt.Sprintf("%s: telegram %d (%s) timed out with %v between two copies of the request (resend interval %v): starved timers, not judged", sig, o.ID, scriptNames[sc], worst, R))
+				continue
+			}
+		}
 		if got != want {
 			r.Violate("sender.script-outcome", map[string]string{"workload": "scripted", "script": scriptNames[sc]},
 				map[string]interface{}{"signature": sig, "script": scriptNames[sc], "telegram": o.ID, "history": excerpt(log, ops, []uint32{o.ID})},
